@@ -672,7 +672,12 @@ func (c *Codec) Decode(src []byte) (dst framer.Frame, err error) {
 // DecodeStream decodes a frame from the given io reader.
 func (c *Codec) DecodeStream(reader io.Reader) (framer.Frame, error) {
 	c.processUpdates()
-	c.panicIfNotUpdated("Decode")
+	if c.mu.seqNum < 1 {
+		// Unlike Encode, Decode is driven by bytes a remote peer chose to send: a data
+		// frame that arrives before the channel set was negotiated is the peer's
+		// protocol error, not a programming error in this process.
+		return framer.Frame{}, errors.Wrap(validate.ErrValidation, "[framer.codec] - received a frame before the codec's channel set was set")
+	}
 	c.reader.Reset(reader)
 
 	var (
